@@ -40,6 +40,7 @@ def run(facts, rep):
     d3_publication(facts, rep)
     d4_zero_fill(facts, rep)
     d6_width(facts, rep)
+    d7_fresh_poll(facts, rep)
 
 
 def witnesses(rep, tier):
@@ -252,3 +253,89 @@ def d6_width(facts, rep):
     if n < 6:
         raise AnalysisBroken('growth functions not found for the width rule')
     rep.floor('D6', 6, 'width discipline')
+
+
+
+# ---------------------------------------------------------------------------------------------------------------
+def d7_fresh_poll(facts, rep):
+    """A thread that waits for a segment polls table[seg].  The table pointer itself is replaced concurrently (embedded
+    table -> long table) and segments allocated after the switch are published in the new table only.  So inside a poll
+    loop the polled atomic must be reached through a fresh read of the table pointer in every iteration, never through a
+    local snapshot taken before the loop."""
+    from engine.rules import root_of
+    n = 0
+    for fn in facts.fns.values():
+        if not (fn.p.startswith(CV) or fn.p.startswith(ST)):
+            continue
+        defs = None
+        for b, blk in fn.blocks.items():
+            t = blk.get('term')
+            if not t or 'c' not in t or len(blk['succ']) != 2:
+                continue
+            loads = [x for x in fn.subtree(t['c']) if (atomic_op(fn, x) or {}).get('kind') == 'load']
+            if not loads:
+                continue
+            # is the branch inside a loop?  (its own block is reachable from one of its successors)
+            if not any(fn.can_reach((sx, -1), (b, 0)) for sx in blk['succ'] if sx is not None):
+                continue
+            # innermost loop through this branch: for each outgoing edge the blocks visited before coming back to b
+            cands = []
+            for sx in blk['succ']:
+                if sx is None:
+                    continue
+                seen_b, work, back = set(), [sx], False
+                while work:
+                    x = work.pop()
+                    if x == b:
+                        back = True
+                        continue
+                    if x in seen_b:
+                        continue
+                    seen_b.add(x)
+                    work.extend(y for y in fn.blocks[x]['succ'] if y is not None)
+                if back:
+                    cands.append(set(x for x in seen_b if fn.can_reach((x, 0), (b, 0))) | {b})
+            if not cands:
+                continue
+            loop_blocks = min(cands, key=len)
+            # a wait loop, not a scan: nothing the condition depends on (an index, a cursor) changes inside the loop
+            if defs is None:
+                defs = Defs(fn)
+            cond_vars = set(fn.nodes[y]['v'] for y in fn.subtree(t['c']) if fn.nodes[y].get('k') == 'var' and 'glob' not in fn.nodes[y])
+            posmap0 = fn.positions()
+            if any(v in cond_vars and dn in posmap0 and posmap0[dn][0] in loop_blocks for (v, dn) in defs.value_of):
+                continue
+            for x in loads:
+                op = atomic_op(fn, x)
+                r = fn.n(root_of(fn, op['obj']))
+                if r.get('k') != 'var' or 'param' in r or 'glob' in r:
+                    continue
+                if defs is None:
+                    defs = Defs(fn)
+                dv = [(dn, val) for (v, dn), val in defs.value_of.items() if v == r['v']]
+                posmap = fn.positions()
+                outside = [dn for dn, val in dv if dn in posmap and posmap[dn][0] not in loop_blocks]
+                inside = [dn for dn, val in dv if dn in posmap and posmap[dn][0] in loop_blocks]
+                snap = any(val is not None and any((atomic_op(fn, y) or {}).get('kind') == 'load' or
+                                                   (fn.nodes[y].get('k') == 'call' and (fn.callee(y) or {}).get('n') == 'get_table')
+                                                   for y in fn.subtree(val)) for dn, val in dv)
+                if not snap:
+                    continue
+                n += 1
+                rep.ob('D7', 'K4', fn, 'the poll loop at line %s re-reads the table pointer in every iteration' % t.get('ln'),
+                       bool(inside) or not outside,
+                       'the loop polls through the local `%s`, a snapshot of the table pointer taken before the loop: after the '
+                       'embedded table was replaced by the long one, new segments are published only there and the waiter spins forever'
+                       % r.get('n'), ln=t.get('ln'), key_extra=str(t.get('ln')))
+    # the rule has no instance on a correct tree (nothing polls through a snapshot); keep a positive count of poll loops instead
+    polls = 0
+    for fn in facts.fns.values():
+        if fn.p.startswith(CV) or fn.p.startswith(ST):
+            for b, blk in fn.blocks.items():
+                t = blk.get('term')
+                if t and 'c' in t and any((atomic_op(fn, x) or {}).get('kind') == 'load' for x in fn.subtree(t['c'])) and \
+                        any(fn.can_reach((sx, -1), (b, 0)) for sx in blk['succ'] if sx is not None):
+                    polls += 1
+    if polls < 2:
+        raise AnalysisBroken('D7: only %d poll loops on atomics found in concurrent_vector / segment_table' % polls)
+    rep.ob('D7', 'K4', None, 'poll loops on segment-table atomics examined: %d' % polls, True, '')
